@@ -18,7 +18,8 @@ proof (coq/theories/Trace/VcdProofs.v, stated in Props/C16.v; model in Trace/Vcd
   C16_acceptor_sound: rows_match ... = true  ->  every read-back value equals the sampled one.
 
 tie, checked on every run (T-acc + T-diff on the REAL .vcd file):
-  random small pymtl3 designs (children, nested children, lists of components/ports, Bits of 1..200 bits,
+  random small pymtl3 designs (children, nested children, lists of components/ports, interfaces nested 2-3 levels with
+  identically named leaves in sibling bundles, lists of interfaces, interfaces inside lists of components and at top level, Bits of 1..200 bits,
   bitstruct ports incl. nested/list/wide (61..67-bit) fields, pure-connection nets spanning several components, constants, slices and
   struct-field connections, never-written wires, counters/toggles; inputs move between values that collide under
   cheap comparisons: equal hash()/mod 2^61-1/2^31-1, equal low 32/64 bits, complements, reversals, rotations,
@@ -31,7 +32,9 @@ tie, checked on every run (T-acc + T-diff on the REAL .vcd file):
      * parse_lines + decode (the proved reader) reconstruct every signal at every cycle, compared with the samples
        by rows_match; clock_wave is compared with expected_clock;                       [the property itself]
      * vcd_lines ws k tr (the proved writer model) is compared line-for-line with the real body. [model = code]
-  Python-side: header lists exactly the design's top-level signals with their widths; PrintTextWavePass's
+  Python-side: exact bijection between the design's top-level signals and the $var declarations, per component $scope
+  (path = repr(host), s -> top) and by the signal's full name relative to its host (interface prefixes and list indices
+  kept, [ ] -> ( )): no duplicates, nothing missing or extra, equal widths; every signal is located by that key; PrintTextWavePass's
   textwave_dict equals the same samples.
 partial / modelled: decimal `#t` and the header are tokenised in Python (trusted glue); blank lines are ignored;
   x/z values are refused by the reader (pymtl3 never writes them); the text-wave comparison is done in Python.
@@ -67,6 +70,59 @@ class Tagged:
 class Big:
   a: Bits61
   b: Bits67
+
+class Leaf( Interface ):
+  def construct( s, T ):
+    s.msg = OutPort( T )
+    s.val = OutPort( Bits1 )
+
+class Pair( Interface ):
+  def construct( s, T ):
+    s.req  = Leaf( T )
+    s.resp = Leaf( T )
+
+class Deep( Interface ):
+  def construct( s, T ):
+    s.lo = Pair( T )
+    s.hi = Pair( T )
+
+class InLeaf( Interface ):
+  def construct( s, T ):
+    s.msg = InPort( T )
+    s.val = InPort( Bits1 )
+
+class InPair( Interface ):
+  def construct( s, T ):
+    s.req  = InLeaf( T )
+    s.resp = InLeaf( T )
+
+class IfcStage( Component ):
+  # sibling bundles with identically named leaves (imem.req.msg / dmem.req.msg / bank[i].req.msg / deep.lo.req.msg ...)
+  # that carry DIFFERENT delays of the input, so a trace bound to the wrong leaf disagrees
+  def construct( s, T, n ):
+    s.in_  = InPort( T )
+    s.out  = OutPort( T )
+    s.imem = Pair( T )
+    s.dmem = Pair( T )
+    s.bank = [ Pair( T ) for _ in range(n) ]
+    s.deep = Deep( T )
+    s.imem.req.msg //= s.in_
+    s.imem.req.val //= 1
+    s.deep.lo.resp.msg //= s.in_
+    s.out //= s.dmem.resp.msg
+    @update_ff
+    def up_ifc():
+      s.dmem.req.msg  <<= s.in_
+      s.dmem.resp.msg <<= s.dmem.req.msg
+      s.dmem.resp.val <<= ~s.dmem.resp.val
+      s.deep.hi.req.msg  <<= s.dmem.resp.msg
+      s.deep.hi.resp.val <<= s.dmem.resp.val
+      s.deep.lo.req.val  <<= ~s.dmem.resp.val
+      s.bank[0].req.msg <<= s.deep.hi.req.msg
+      for i in range(1, n):
+        s.bank[i].req.msg  <<= s.bank[i-1].req.msg
+        s.bank[i].resp.val <<= ~s.bank[i-1].resp.val
+      s.bank[0].resp.val <<= s.dmem.resp.val
 
 class Reg( Component ):
   def construct( s, T ):
@@ -194,6 +250,7 @@ def stage_ctor(st, tv):
   k = st[0]
   if k in ('Reg', 'PassThru', 'Nested', 'Inv', 'PtSwap', 'PtFields'): return f'{k}( {tv} )'
   if k == 'Fan': return f'Fan( {tv}, {st[1]} )'
+  if k == 'IfcStage': return f'IfcStage( {tv}, {st[1]} )'
   if k == 'AddK': return f'AddK( {tv}, {st[1]} )'
   if k == 'SliceMix': return f'SliceMix( {tv}, {st[1]}, {st[2]} )'
   raise ValueError(k)
@@ -254,6 +311,18 @@ def render(spec, name):
       L.append(f'    for i in range({n}):')
       L.append(f'      s.lo{i}[i] //= s.lp{i}[i]')
       for q in range(n): inputs.append((f'lp{i}', q, ex[1]))
+    elif k == 'topifc':
+      n = ex[2]
+      L.append(f'    s.ti{i} = [ InPair( {tdecl(ex[1])} ) for _ in range({n}) ]')
+      L.append(f'    s.to{i} = [ Pair( {tdecl(ex[1])} ) for _ in range({n}) ]')
+      L.append(f'    for i in range({n}):')
+      L.append(f'      s.to{i}[i].req.msg  //= s.ti{i}[i].req.msg')
+      L.append(f'      s.to{i}[i].resp.msg //= s.ti{i}[i].resp.msg')
+      L.append(f'      s.to{i}[i].req.val  //= s.ti{i}[i].resp.val')
+      for q in range(n):
+        inputs.append((f'ti{i}[{q}].req.msg', None, ex[1]))
+        inputs.append((f'ti{i}[{q}].resp.msg', None, ex[1]))
+        inputs.append((f'ti{i}[{q}].resp.val', None, ('b', 1)))
     elif k == 'wires':
       L.append(f'    s.ww{i} = [ Wire( {tdecl(ex[1])} ) for _ in range({ex[2]}) ]')
     else:
@@ -269,13 +338,14 @@ def rand_type(rng, allow_struct=True):
 
 def rand_stage(rng, T):
   w = twidth(T)
-  opts = ['Reg', 'Reg', 'PassThru', 'PassThru', 'Nested', 'Fan']
+  opts = ['Reg', 'Reg', 'PassThru', 'PassThru', 'Nested', 'Fan', 'IfcStage']
   if T[0] == 'b':
     opts += ['Inv', 'AddK', 'AddK']
     if w >= 2: opts += ['SliceMix']
   if T == ('s', 'Pt'): opts += ['PtSwap', 'PtFields', 'PtSwap']
   k = rng.choice(opts)
   if k == 'Fan': return ('Fan', rng.randint(1, 3))
+  if k == 'IfcStage': return ('IfcStage', rng.randint(1, 3))
   if k == 'AddK': return ('AddK', rng.randrange(0, 1 << min(w, 16)))
   if k == 'SliceMix':
     h = rng.randint(1, w - 1)
@@ -297,7 +367,7 @@ def rand_spec(rng, big=False):
                    'aslist': rng.random() < 0.4})
   extras = []
   for _ in range(rng.randint(0, 4 if big else 3)):
-    k = rng.choice(['never', 'konst', 'counter', 'topcnt', 'idle', 'listports', 'never', 'topcnt'])
+    k = rng.choice(['never', 'konst', 'counter', 'topcnt', 'idle', 'listports', 'never', 'topcnt', 'topifc'])
     if k == 'never': extras.append(('never', rand_type(rng)))
     elif k == 'konst':
       T = rand_type(rng, False); extras.append(('konst', T, rng.choice([0, 1, (1 << T[1]) - 1, rng.randrange(1 << T[1])])))
@@ -306,6 +376,7 @@ def rand_spec(rng, big=False):
       T = ('b', rng.choice([1, 1, 2, 4, 65])); extras.append(('topcnt', T, rng.choice([1, 1, (1 << T[1]) - 1, 0])))
     elif k == 'idle': extras.append(('idle', rand_type(rng)))
     elif k == 'listports': extras.append(('listports', rand_type(rng), rng.randint(1, 3)))
+    elif k == 'topifc': extras.append(('topifc', rand_type(rng), rng.randint(1, 2)))
   return {'chains': chains, 'extras': extras}
 
 def rand_inputs(rng, inputs, ncyc):
@@ -355,6 +426,10 @@ DIRECTED = [
               {'T': ('s', 'Big'), 'stages': [], 'share': None, 'aslist': False},
               {'T': ('b', 200), 'stages': [('Inv',)], 'share': None, 'aslist': False}],
    'extras': [('listports', ('b', 128), 2), ('listports', ('b', 62), 1)]},
+  # interfaces: nested 2-3 levels, lists of interfaces, interfaces inside a list of components, at top level
+  {'chains': [{'T': ('b', 8), 'stages': [('IfcStage', 2), ('IfcStage', 1), ('Reg',)], 'share': None, 'aslist': True},
+              {'T': ('s', 'Pt'), 'stages': [('IfcStage', 3)], 'share': None, 'aslist': False}],
+   'extras': [('topifc', ('b', 5), 2), ('topifc', ('s', 'Tagged'), 1)]},
   # one input fanned into three chains: one big net across many components
   {'chains': [{'T': ('b', 8), 'stages': [('PassThru',), ('PassThru',)], 'share': None, 'aslist': False},
               {'T': ('b', 8), 'stages': [('Fan', 3), ('PassThru',)], 'share': 0, 'aslist': False},
@@ -427,13 +502,24 @@ def run_design(src, name, inputs, seq, reset, vcd=True, tag='d'):
   if reset: top.sim_reset()
   for rowv in seq:
     for (attr, idx, T), v in zip(inputs, rowv):
-      obj = getattr(top, attr)
+      obj = top
+      for part in re.findall(r'[A-Za-z_]\w*|\[\d+\]', attr):
+        obj = obj[int(part[1:-1])] if part[0] == '[' else getattr(obj, part)
       if idx is not None: obj = obj[idx]
       val = mk_bits(twidth(T))(v)
       if T[0] == 's': val = types[T[1]].from_bits(val)
       obj.__imatmul__(val)
     top.sim_tick()
+  # naming convention of the clean implementation: one $scope per component along repr(host) ('s' -> 'top'), and inside it
+  # the signal's FULL name relative to its host component (interface prefixes and list indices kept), [ ] -> ( )
+  def scope_of(x):
+    return tuple(mangle(c) for c in ('top' + repr(x.get_host_component())[1:]).split('.'))
+  def rel_of(x):
+    h, r = repr(x.get_host_component()), repr(x)
+    if not r.startswith(h + '.'): raise RuntimeError(f'{r} is not named under its host {h}')
+    return mangle(r[len(h) + 1:])
   res = {'sigs': [('top' + repr(x)[1:], int(x._dsl.Type.nbits)) for x in sigs],
+         'where': [(scope_of(x), rel_of(x)) for x in sigs],
          'field': [x.get_field_name() for x in sigs], 'repr': [repr(x) for x in sigs]}
   if vcd:
     # the dump function flushes after every cycle; the file object stays open inside the closure
@@ -455,7 +541,7 @@ def mangle(name):
   return name.replace('[', '(').replace(']', ')').replace(':', '__')
 
 def tokenize_vcd(text):
-  """-> (vars [(full dotted name, width, code)], init value lines, body tokens [('t', n) | ('v', rawline)])"""
+  """-> (vars [((scope path, name inside the scope), width, code)], body tokens [('t', n) | ('v', rawline)])"""
   marker = '$enddefinitions $end'
   pos = text.index(marker)
   head, body = text[:pos], text[pos + len(marker):]
@@ -470,7 +556,7 @@ def tokenize_vcd(text):
     elif t == '$var':
       j = toks.index('$end', i)
       width, code, nm = int(toks[i + 2]), toks[i + 3], ' '.join(toks[i + 4:j])
-      vars_.append(('.'.join(scopes + [nm]), width, code)); i = j + 1
+      vars_.append(((tuple(scopes), nm), width, code)); i = j + 1
     elif t in ('$date', '$version', '$timescale', '$comment'):
       i = toks.index('$end', i) + 1
     else:
@@ -508,22 +594,30 @@ def analyse(res):
   """everything derived from one run; returns dict with coq case term + python-side findings"""
   out = {'problems': []}
   vars_, tokens = tokenize_vcd(res['vcd_text'])
-  decl = {}
-  for nm, w, code in vars_:
-    if nm in decl: out['problems'].append(('header', f'{nm} declared twice'))
-    decl[nm] = (w, code)
-  want = {mangle(nm): w for nm, w in res['sigs']}
-  if set(decl) != set(want):
-    out['problems'].append(('header', f'signals missing from the header: {sorted(set(want) - set(decl))[:5]}, '
-                                      f'unknown names: {sorted(set(decl) - set(want))[:5]}'))
-  for nm, w in want.items():
-    if nm in decl and decl[nm][0] != w:
-      out['problems'].append(('header', f'{nm} declared {decl[nm][0]} bits, type has {w}'))
+  # exact bijection between the design's top-level signals and the $var declarations: per component scope, by the full
+  # relative name, no duplicates, nothing missing, nothing extra, equal widths.  Signals are then located by that key.
+  show = lambda k: '/'.join(k[0]) + ' : ' + k[1]
+  decl, dup = {}, []
+  for key, w, code in vars_:
+    if key in decl: dup.append(key)
+    decl[key] = (w, code)
+  for key in sorted(set(dup))[:5]:
+    out['problems'].append(('header', f'$var {show(key)} is declared {1 + dup.count(key)} times in one scope: a reader cannot tell '
+                                      f'which trace belongs to which signal'))
+  want = {key: w for key, (_, w) in zip(res['where'], res['sigs'])}
+  if len(want) != len(res['where']): raise RuntimeError('two design signals with one (scope, name)')
+  missing, extra = sorted(set(want) - set(decl)), sorted(set(decl) - set(want))
+  if missing or extra:
+    out['problems'].append(('header', f'signals without a $var of their name in their component scope: {[show(k) for k in missing[:6]]}; '
+                                      f'$var declarations that name no signal: {[show(k) for k in extra[:6]]}'))
+  for key, w in want.items():
+    if key in decl and decl[key][0] != w:
+      out['problems'].append(('header', f'{show(key)} declared {decl[key][0]} bits, type has {w}'))
   if out['problems']: return out
-  names = [mangle(nm) for nm, _ in res['sigs']]
-  codes = [decl[n][1] for n in names]
-  widths = [decl[n][0] for n in names]
-  clk = decl['top.clk'][1]
+  names = ['.'.join(k[0]) + '.' + k[1] for k in res['where']]
+  codes = [decl[k][1] for k in res['where']]
+  widths = [decl[k][0] for k in res['where']]
+  clk = decl[(('top',), 'clk')][1]
   # the clock itself (s.clk and the clk ports on its net) is synthesised by the dump and checked through clock_wave;
   # any OTHER signal that carries the clock's code is compared like every signal (and will disagree)
   nonclk = [i for i, c in enumerate(codes) if not (c == clk and res['field'][i] == 'clk')]
